@@ -383,18 +383,26 @@ package plush
 // C11: member access. cv is the evaluated callee; rvd its value after one transparent pointer dereference;
 // fld the reflect field of that name (reflect's own semantics = what Go navigation yields).
 //@ spec rvd(cv any) reflect.Value = indirect(rvOf(cv))
+//@ func fieldByName
+//@ requires kind: rvKind(rv) == 25
+//@ ensures reach: ok <==> !rvNilEmbedded(rv, name)
+//@ ensures same: ok ==> f == rvField(rv, name)
+//@ assigns nothing
+
 //@ func (c *compiler) evalIdentifier
 //@ ensures stmtsame: c.curStmt == old(c.curStmt)
 //@ ghost cv = callresult after evalExpression
 //@ ghost cverr = callresult1 after evalExpression
 //@ ensures nilcallee: node.Callee != nil && cverr == nil && cv == nil ==> result == nil
 //@ ensures notstruct: node.Callee != nil && cverr == nil && cv != nil && rvKind(rvd(cv)) != 25 ==> err != nil
-//@ ensures field: node.Callee != nil && cverr == nil && cv != nil && rvKind(rvd(cv)) == 25 && rvValid(rvField(rvd(cv), node.Value)) && rvKind(rvField(rvd(cv), node.Value)) != 22 && rvCanIface(rvField(rvd(cv), node.Value)) ==> err == nil && result == rvIface(rvField(rvd(cv), node.Value))
-//@ ensures unexported: node.Callee != nil && cverr == nil && cv != nil && rvKind(rvd(cv)) == 25 && rvValid(rvField(rvd(cv), node.Value)) && rvKind(rvField(rvd(cv), node.Value)) != 22 && !rvCanIface(rvField(rvd(cv), node.Value)) ==> err != nil
-//@ ensures nilptrfield: node.Callee != nil && cverr == nil && cv != nil && rvKind(rvd(cv)) == 25 && rvKind(rvField(rvd(cv), node.Value)) == 22 && rvIsNil(rvField(rvd(cv), node.Value)) ==> err == nil && result == nil
-//@ ensures ptrfield: node.Callee != nil && cverr == nil && cv != nil && rvKind(rvd(cv)) == 25 && rvKind(rvField(rvd(cv), node.Value)) == 22 && !rvIsNil(rvField(rvd(cv), node.Value)) && rvCanIface(rvField(rvd(cv), node.Value)) ==> err == nil && result == rvIface(rvElem(rvField(rvd(cv), node.Value)))
-//@ ensures nomember: node.Callee != nil && cverr == nil && cv != nil && rvKind(rvd(cv)) == 25 && !rvValid(rvField(rvd(cv), node.Value)) && !rvValid(rvMethod(rvd(cv), node.Value)) ==> err != nil
-//@ ensures method: node.Callee != nil && cverr == nil && cv != nil && rvKind(rvd(cv)) == 25 && !rvValid(rvField(rvd(cv), node.Value)) && rvValid(rvMethod(rvd(cv), node.Value)) ==> err == nil && result == rvIface(rvMethod(rvd(cv), node.Value))
+//@ ensures field: node.Callee != nil && cverr == nil && cv != nil && rvKind(rvd(cv)) == 25 && !rvNilEmbedded(rvd(cv), node.Value) && rvValid(rvField(rvd(cv), node.Value)) && rvKind(rvField(rvd(cv), node.Value)) != 22 && rvCanIface(rvField(rvd(cv), node.Value)) ==> err == nil && result == rvIface(rvField(rvd(cv), node.Value))
+//@ ensures unexported: node.Callee != nil && cverr == nil && cv != nil && rvKind(rvd(cv)) == 25 && !rvNilEmbedded(rvd(cv), node.Value) && rvValid(rvField(rvd(cv), node.Value)) && rvKind(rvField(rvd(cv), node.Value)) != 22 && !rvCanIface(rvField(rvd(cv), node.Value)) ==> err != nil
+//@ ensures nilptrfield: node.Callee != nil && cverr == nil && cv != nil && rvKind(rvd(cv)) == 25 && !rvNilEmbedded(rvd(cv), node.Value) && rvKind(rvField(rvd(cv), node.Value)) == 22 && rvIsNil(rvField(rvd(cv), node.Value)) ==> err == nil && result == nil
+//@ ensures ptrfield: node.Callee != nil && cverr == nil && cv != nil && rvKind(rvd(cv)) == 25 && !rvNilEmbedded(rvd(cv), node.Value) && rvKind(rvField(rvd(cv), node.Value)) == 22 && !rvIsNil(rvField(rvd(cv), node.Value)) && rvCanIface(rvField(rvd(cv), node.Value)) ==> err == nil && result == rvIface(rvElem(rvField(rvd(cv), node.Value)))
+// a field promoted through an embedded pointer that is nil: the path ends at a nil pointer (C04: no panic; C11: empty, not another value)
+//@ ensures nilembedded: node.Callee != nil && cverr == nil && cv != nil && rvKind(rvd(cv)) == 25 && rvNilEmbedded(rvd(cv), node.Value) ==> err == nil && result == nil
+//@ ensures nomember: node.Callee != nil && cverr == nil && cv != nil && rvKind(rvd(cv)) == 25 && !rvNilEmbedded(rvd(cv), node.Value) && !rvValid(rvField(rvd(cv), node.Value)) && !rvValid(rvMethod(rvd(cv), node.Value)) ==> err != nil
+//@ ensures method: node.Callee != nil && cverr == nil && cv != nil && rvKind(rvd(cv)) == 25 && !rvNilEmbedded(rvd(cv), node.Value) && !rvValid(rvField(rvd(cv), node.Value)) && rvValid(rvMethod(rvd(cv), node.Value)) ==> err == nil && result == rvIface(rvMethod(rvd(cv), node.Value))
 //@ ensures variable: node.Callee == nil && err == nil && node.Value != "nil" ==> result == hctx.ctxvalue(c.ctx, box(node.Value))
 //@ ensures unknown: node.Callee == nil && err != nil ==> is(err, "*ErrUnknownIdentifier")
 //@ ensures ufn: is(result, "*userFunction") ==> pay(result) != 0
